@@ -83,16 +83,24 @@ def run(ctx):
                 continue
             inp = dict(kind="fixed-step-calls", method=name, t0=t0, tf=tf, dt=dt, plan=plan, ops=[list(map(str, o)) for o in sc.ops])
             cur = abs(dt)
+            t_now = t0
             for op, rec in zip(sc.ops, sc.records):
+                if op[0] == "reset":
+                    t_now = t0
+                    cur = abs(dt)         # reset() restores the step given to the constructor
                 if op[0] != "int" or not rec["log"]:
                     continue
                 hs = [e["h"] for e in rec["log"]]
-                # the step in force is the requested one unless an earlier call had to clip it to half its (shorter) span
+                target = tf if op[1] is None else op[1]
+                dist = abs(target - t_now)
+                # the step in force is the requested one; only a call whose whole span is shorter than it halves it to half that span
+                expected = cur if cur <= dist else 0.5 * dist
                 first = abs(hs[0])
-                ok = first <= cur * (1 + 1e-15) and all(abs(h) == first for h in hs[:-1]) and abs(hs[-1]) <= first
-                ctx.oracle("requests-equal-dt-across-calls", ok, dict(inp, requests=hs[:5] + hs[-2:], step_in_force=cur),
-                           what="call %s requested steps %s although the step in force was %r" % (op[1], [round(h, 6) for h in hs[:4]], cur))
-                cur = min(cur, first)
+                ok = abs(first - expected) <= 4e-16 * max(1.0, expected) and all(abs(h) == first for h in hs[:-1]) and abs(hs[-1]) <= first * (1 + 1e-15)
+                ctx.oracle("requests-equal-dt-across-calls", ok, dict(inp, requests=hs[:5] + hs[-2:], step_in_force=cur, expected_first_request=expected),
+                           what="call to %s requested steps %s although the step in force was %r (expected first request %r)" % (target, [round(h, 6) for h in hs[:4]], cur, expected))
+                cur = expected
+                t_now = rec["t"][-1]
             scs.append(sc)
             lines.append(sc.model_line())
             ctx.count("calls:" + plan)
